@@ -240,6 +240,14 @@ def rand_run(rng, fmt, kind, *, calls=None, iters=None, value_classes=None, dist
     if cb is not None and cb[0] == 'builtin' and rng.random() < 0.5:
         # the callback instantiated with the checkpoint's base class (without the engine), as the library's examples do
         s.insert(-1, ['cbbase', 1]); classes.append('callback_on_base_class')
+    if rng.random() < 0.12:
+        # while a point is evaluated the integrand runs a small integration of its own (same integrator, same template instantiation)
+        s.insert(-1, ['nest', 1]); classes.append('nested_integration')
+    if rng.random() < 0.2:
+        s.insert(-1, ['errno', 1]); classes.append('integrand_leaves_errno_EDOM')
+    if kind == 'mc' and rng.random() < 0.4:
+        # the map writes the densities in the coordinate call already (as the library's examples do)
+        s.insert(-1, ['mapearly', 1]); classes.append('map_writes_densities_early')
     if rng.random() < 0.3:
         # the state the user's streams are in when they are handed to the library: float-field flags, precision, showpoint, alignment
         # (the library sets what it needs itself), and an input stream that reports errors by exceptions
